@@ -26,6 +26,8 @@ CONFIGS = {
     'release11': ['-std=c++11', '-DNDEBUG'],
     'release17': ['-std=c++17', '-DNDEBUG'],
     'debug11': ['-std=c++11', '-DTBB_USE_DEBUG=1'],
+    # the documented, user-overridable capacity of the partitioners' range pool set to a value that is not a power of two
+    'pool6': ['-std=c++11', '-DNDEBUG', '-D__TBB_RANGE_POOL_CAPACITY=6'],
     'preview17': ['-std=c++17', '-DNDEBUG', '-DTBB_PREVIEW_ISOLATED_TASK_GROUP=1', '-DTBB_PREVIEW_TASK_GROUP_EXTENSIONS=1',
                   '-DTBB_PREVIEW_FLOW_GRAPH_FEATURES=1', '-DTBB_PREVIEW_FLOW_GRAPH_TRY_PUT_AND_WAIT=1',
                   '-DTBB_PREVIEW_CONCURRENT_LRU_CACHE=1', '-DTBB_PREVIEW_MEMORY_POOL=1'],
